@@ -30,6 +30,9 @@ type OptionView struct {
 	ArgKind  ast.Kind
 	ArgNames []string
 	Bool     bool
+	// LastKind: kind of the last argument (after map_to_index the value is the second one)
+	LastKind ast.Kind
+	LastBool bool
 }
 
 func BuildersViewOf(schemas ast.Schemas, builders ast.Builders) []BuilderView {
@@ -66,6 +69,9 @@ func BuildersViewOf(schemas ast.Schemas, builders ast.Builders) []BuilderView {
 				ov.ArgNames = append(ov.ArgNames, a.Name)
 			}
 			if len(o.Args) > 0 {
+				last := o.Args[len(o.Args)-1].Type
+				ov.LastKind = last.Kind
+				ov.LastBool = last.Kind == ast.KindScalar && last.Scalar != nil && last.Scalar.ScalarKind == ast.KindBool
 				ov.ArgKind = o.Args[0].Type.Kind
 				ov.Bool = o.Args[0].Type.Kind == ast.KindScalar && o.Args[0].Type.Scalar != nil && o.Args[0].Type.Scalar.ScalarKind == ast.KindBool
 			}
